@@ -97,12 +97,18 @@ def run_unit(name, spec, repo, workdir, tier="quick", seed=0, threads=4, timeout
     cmd += spec.get("verus_args", [])
     res["checker_cmd"] = " ".join(cmd)
     to = timeout_s or spec.get("timeout_s", 900)
-    try:
-        p = subprocess.run(cmd, capture_output=True, text=True, timeout=to, cwd=workdir)
-    except subprocess.TimeoutExpired:
-        res["reason"] = "verus wall-clock timeout after %ds" % to
-        res["wall_s"] = time.time() - t0
-        return res
+    p = None
+    for attempt in range(2):
+        try:
+            p = subprocess.run(cmd, capture_output=True, text=True, timeout=to, cwd=workdir)
+        except subprocess.TimeoutExpired:
+            res["reason"] = "verus wall-clock timeout after %ds" % to
+            res["wall_s"] = time.time() - t0
+            return res
+        if p.stdout.lstrip().startswith("{"):
+            break
+        # a crash of the verifier itself (panic / abort, no JSON): retry once before giving up as undecided
+        res["retried_after_crash"] = True
     open(os.path.join(workdir, name + ".stderr"), "w").write(p.stderr)
     try:
         js = json.loads(p.stdout)
